@@ -226,6 +226,9 @@ func c19Run(c *Ctx, cs c19Case, count bool) {
 	case "top-mutex":
 		target.SetMutex()
 		recv = target
+	case "top-decorated":
+		decorate(target).SetFIFO(true).SetValidityPolicy(func(...any) error { return nil })
+		recv = target
 	case "in-stack":
 		recv = stackage.And().Push("p0", target, "p1")
 		parentWant = []any{"p0", target, "p1"}
@@ -274,7 +277,7 @@ func c19Run(c *Ctx, cs c19Case, count bool) {
 	}
 	got := contents(target)
 	pre := ""
-	if cs.Place != "top" && cs.Place != "top-mutex" {
+	if !strings.HasPrefix(cs.Place, "top") {
 		pre = "nested(" + cs.Place + "):"
 	}
 	lim := cs.Limit
@@ -325,7 +328,7 @@ func c19Run(c *Ctx, cs c19Case, count bool) {
 	if !target.IsInit() {
 		c.Violation(pre+"config-lost", fmt.Sprintf("stack no longer initialised after Defrag on %s", jsonString(cs)), cs, size)
 	}
-	if cs.Place != "top" && cs.Place != "top-mutex" {
+	if !strings.HasPrefix(cs.Place, "top") {
 		if pg := contents(recv); !sameList(pg, parentWant) {
 			c.Violation(pre+"parent-changed", fmt.Sprintf("the enclosing stack changed: %s want %s (%s)", showTypes(pg), showTypes(parentWant), jsonString(cs)), cs, size)
 		}
@@ -371,7 +374,7 @@ func c19Cases(c *Ctx) []c19Case {
 					}
 				}
 				if n <= nestLen && (lim == 0 || lim == 3) {
-					for _, pl := range []string{"top-mutex", "in-stack", "alias", "ptr-alias", "in-cond", "in-cond-only", "in-cond-alias", "deep"} {
+					for _, pl := range []string{"top-mutex", "top-decorated", "in-stack", "alias", "ptr-alias", "in-cond", "in-cond-only", "in-cond-alias", "deep"} {
 						out = append(out, c19Case{n, mask, lim, false, false, pl, "AND", false, ""})
 						if mask != (1<<n)-1 && n <= 4 && lim == 0 {
 							out = append(out, c19Case{n, mask, lim, false, false, pl, "AND", true, ""})
